@@ -155,6 +155,17 @@ pub mod serde_json {
 	{ unimplemented!() }
 }
 
+// a byte slice is a reader over its content (std: impl Read for &[u8])
+impl Read for &[u8] {
+	open spec fn rest(&self) -> Seq<u8> { (*self)@ }
+	uninterp spec fn consumed(&self) -> Seq<u8>;
+	uninterp spec fn hit_eof(&self) -> bool;
+	open spec fn inv(&self) -> bool { true }
+	open spec fn stable(&self) -> bool { true }
+	#[verifier::external_body]
+	fn read(&mut self, buf: &mut [u8]) -> (res: std::result::Result<usize, IoError>) { unimplemented!() }
+}
+
 // ------------------------------------------------------------------ reading: tar::Archive, serde_json::from_reader, arrow2 StreamReader
 // what iterating an archive over these bytes yields: entries in file order; `Bad` = the iterator reports an I/O / format error there
 pub enum ArchiveItem { Good(TarEntry), Bad }
@@ -188,6 +199,10 @@ pub mod tar_read {
 	// one archive member, readable: delivers its content
 	pub struct Entry { pub e: Ghost<TarEntry>, pub pos: Ghost<int>, pub eof: Ghost<bool> }
 	impl Entry {
+		#[verifier::external_body]
+		// Entry::size(): the size recorded in the member's header (NOT the number of bytes actually present in a cut archive)
+		#[verifier::external_body]
+		pub fn size(&self) -> (res: u64) ensures res == self.e@.header.size { unimplemented!() }
 		#[verifier::external_body]
 		pub fn path(&self) -> (res: std::result::Result<EntryPath, IoError>) ensures res is Ok, res->Ok_0.p@ == self.e@.header.path { unimplemented!() }
 	}
